@@ -313,6 +313,76 @@ def run_pulser(case):
     return None, worst
 
 
+# ------------------------------------------------------------------ large-step leg: right, or an explicit refusal
+def large_step_leg(rep: Report, rng, tier: str) -> None:
+    """dt·‖H‖ too large for the Krylov space. The only acceptable outcomes are (a) the state is within the usual
+    tolerance of the dense exact evolution or (b) an explicit error (RecursionError) — never a silent wrong state.
+    (1) the real `krylov_exp` with its public `max_krylov_dim` reduced to 5-15 on the dense −i·dt·H of 3-6 atoms;
+    (2) real emu-sv runs (fixed 100 vectors) on 7-8 atoms with 0.5-2 µs steps."""
+    import torch
+    from scipy.linalg import expm
+    from emu_base.math.krylov_exp import krylov_exp
+    from harness import compat
+    from pulser.backend import StateResult
+    n1, n2 = (24, 3) if tier == "quick" else (600, 40)
+    for _ in range(n1):
+        c = ic.gen_case(rng, nmin=3, nmax=6, max_steps=1)
+        kt = rng.choice([1e-8, 1e-10])
+        dt = rng.choice([0.02, 0.1, 0.5, 2.0])                    # µs: from comfortable to hopeless
+        kdim = rng.choice([5, 8, 10, 15])
+        H = ic.dense_h(c["omega"][0], c["delta"][0], c["phi"][0], c["U"])
+        A = torch.tensor(-1j * dt * H)
+        c["init"] = c["init"] or ([rng.gauss(0, 1) for _ in range(2 ** c["n"])], [rng.gauss(0, 1) for _ in range(2 ** c["n"])])
+        v = ic.psi0(c)
+        data = ic.ser_case(c, stream="krylov_small_dim", dt_us=dt, max_krylov_dim=kdim, kt=kt)
+        rep.case(key=("kdim", c["n"], dt, kdim, c["omega"][0][0]), nontrivial=True)
+        msg = krylov_small_dim_outcome(data)
+        rep.hist("large_step_krylov_exp", "refused:RecursionError" if msg == "refused" else ("ok" if msg is None else "wrong"))
+        if msg not in (None, "refused"):
+            rep.fail(msg, data)
+    for _ in range(n2):
+        c = ic.gen_case(rng, nmin=7, nmax=8, max_steps=2, scale=1.0)
+        c["init"], c["slm_end"], c["kt"], c["obs0"] = None, 0.0, rng.choice([1e-8, 1e-10]), True
+        dt = rng.choice([500.0, 1000.0, 2000.0])
+        c["times"] = [dt * k for k in range(c["nsteps"] + 1)]
+        c["grid_kind"] = "large-step"
+        rep.case(key=("large", c["n"], dt, c["omega"][0][0]), nontrivial=True)
+        try:
+            out = run_case(c)
+        except RecursionError:
+            rep.hist("large_step_emu_sv", "refused:RecursionError")
+            continue
+        except Exception as e:
+            rep.fail(f"real SVBackendImpl raised {type(e).__name__}: {e}", ic.ser_case(c))
+            continue
+        rep.hist("large_step_emu_sv", "completed")
+        msg = oracle(c, out)[0] if out["status"] == "ok" else f"run failed with {out['status']}"
+        if msg:
+            rep.fail("[large step, run was not refused] " + msg, ic.ser_case(c), klass=classify(c, msg, out))
+
+
+def krylov_small_dim_outcome(d):
+    """one direct call of the real krylov_exp with a reduced max_krylov_dim; returns None (within tolerance),
+    'refused' (RecursionError) or a failure message"""
+    import torch
+    from scipy.linalg import expm
+    from emu_base.math.krylov_exp import krylov_exp
+    H = ic.dense_h(d["omega"][0], d["delta"][0], d["phi"][0], d["U"])
+    A = torch.tensor(-1j * d["dt_us"] * H)
+    v = ic.psi0(d)
+    try:
+        r = krylov_exp(lambda x: A @ x, torch.tensor(v).clone(), exp_tolerance=d["kt"], norm_tolerance=d["kt"],
+                       is_hermitian=True, max_krylov_dim=d["max_krylov_dim"])
+    except RecursionError:
+        return "refused"
+    err = float(np.linalg.norm(r.numpy() - expm(-1j * d["dt_us"] * H) @ v))
+    allowed = 10.0 * d["kt"] + STEP_ROUND
+    if err <= allowed:
+        return None
+    return (f"krylov_exp(max_krylov_dim={d['max_krylov_dim']}) returned a state off by {err:.3e} > {allowed:.3e} for dt*|H| = "
+            f"{d['dt_us'] * float(np.linalg.norm(H, 2)):.1f} instead of raising")
+
+
 def gen(rng, nmax, max_steps):
     c = ic.gen_case(rng, nmin=1, nmax=nmax, max_steps=max_steps)
     c["kt"] = rng.choice([1e-6, 1e-8, 1e-10, 1e-10, 1e-12])
@@ -357,7 +427,8 @@ def check(rep: Report, tier: str, seed: int) -> None:
                 "stream, optional random initial state (also unnormalised: accepted as is) with a second run on the same "
                 "config object and a bit-for-bit check of the caller's tensor, krylov_tolerance 1e-6..1e-12; real Pulser "
                 "sequences (rydberg_global + detuning map with unequal weights, or + SLM mask) through the real PulserData "
-                "adapter against a reference built from pulser's per-atom samples; malformed stream: "
+                "adapter against a reference built from pulser's per-atom samples; a large-step leg (krylov_exp with "
+                "max_krylov_dim 5-15, emu-sv 7-8 atoms with 0.5-2 us steps: within tolerance or RecursionError); malformed stream: "
                 "short, empty, zero-duration grids. non-trivial = at least 2 steps; distinct = distinct (grid, slm_end, n)")
     rep.assumptions = [
         "C07 accuracy clause + C06 (KrylovContract: stepper.apply returns exp(-i dt H) psi within eps*|psi|) — assumed in "
@@ -370,7 +441,7 @@ def check(rep: Report, tier: str, seed: int) -> None:
     rng = seeded(seed * 7919 + 101)
     import torch
     torch.manual_seed(seed)
-    n_cases = 70 if tier == "quick" else 3000
+    n_cases = 66 if tier == "quick" else 3000
     cases, outs, due = [], [], []
     worst = 0.0
     n_delay = 14 if tier == "quick" else 300
@@ -439,6 +510,7 @@ def check(rep: Report, tier: str, seed: int) -> None:
         if msg:
             rep.fail(msg, ic.ser_case(case, stream="pulser"))
     rep.extra["pulser_stream_worst_error_over_allowed"] = round(pworst, 4)
+    large_step_leg(rep, rng, tier)
     for case in ic.malformed_cases(rng, 25 if tier == "quick" else 300):
         case["kt"], case["obs0"] = 1e-10, True
         try:
@@ -490,6 +562,12 @@ def replay(rep: Report, path: str) -> int:
     bad = 0
     for f in data.get("failing_inputs", []):
         case = f["data"]
+        if case.get("stream") == "krylov_small_dim":
+            msg = krylov_small_dim_outcome(case)
+            msg = None if msg == "refused" else msg
+            print("replay:", msg or "property holds on this input now")
+            bad += bool(msg)
+            continue
         if case.get("stream") == "pulser":
             try:
                 msg = run_pulser(case)[0]
@@ -499,7 +577,11 @@ def replay(rep: Report, path: str) -> int:
             bad += bool(msg)
             continue
         try:
-            out = run_case(case)
+            try:
+                out = run_case(case)
+            except RecursionError:
+                print("replay: refused with RecursionError (acceptable)")
+                continue
             if case.get("second_run") and out["status"] == "ok":
                 out = run_case(case, config=out["config"])
             msg = f"run failed with {out['status']}" if out["status"] != "ok" else oracle(case, out)[0]
